@@ -143,6 +143,11 @@ struct DynCfg {
 	typedef Table::Row Row;
 	static Table make(Ledger* led) { CL cl{LedgerMM(led)}; cl.Add(idCol, canCol, strCol, cntCol); return Table(std::move(cl)); }
 	static void fill(Row& r, uint64_t serial) { r[idCol] = serial; r[canCol] = canaryOf(serial); r[strCol] = strOf(serial); r[cntCol].serial = serial; }
+	// the three ways to create a detached row: NewRow(), NewRow(assignments...) (pvNewRow), NewRow(const Row&) (pvImportRaw)
+	static Row create(Table& t, uint64_t serial) {
+		if (serial % 3 == 1) { Row r = t.NewRow(idCol = serial, canCol = canaryOf(serial), strCol = strOf(serial)); r[cntCol].serial = serial; return r; }
+		Row r = t.NewRow(); fill(r, serial); return r;
+	}
 	template<typename R> static uint64_t idOf(const R& r) { return r[idCol]; }
 	template<typename R> static bool ok(const R& r, uint64_t serial) {
 		return r[idCol] == serial && r[canCol] == canaryOf(serial) && r[strCol] == strOf(serial) && r[cntCol].serial == serial;
@@ -158,6 +163,11 @@ struct StatCfg {
 	typedef Table::Row Row;
 	static Table make(Ledger* led) { return Table(CL(LedgerMM(led))); }
 	static void fill(Row& r, uint64_t serial) { r->id = serial; r->canary = canaryOf(serial); r->str = strOf(serial); r->cnt.serial = serial; }
+	// NewRow() or NewRow(Raw&&)
+	static Row create(Table& t, uint64_t serial) {
+		if (serial % 3 == 1) { StatStruct v; v.id = serial; v.canary = canaryOf(serial); v.str = strOf(serial); v.cnt.serial = serial; return t.NewRow(std::move(v)); }
+		Row r = t.NewRow(); fill(r, serial); return r;
+	}
 	template<typename R> static uint64_t idOf(const R& r) { return r->id; }
 	template<typename R> static bool ok(const R& r, uint64_t serial) {
 		return r->id == serial && r->canary == canaryOf(serial) && r->str == strOf(serial) && r->cnt.serial == serial;
@@ -250,13 +260,12 @@ struct SeqCase {
 	unsigned opNew() {
 		crashNext("new");
 		size_t before = alloc();
-		Row r = t->NewRow();
+		Row r = Cfg::create(*t, serial);
 		const void* a = r.GetRaw();
 		bool seen = ids.known(a);
 		unsigned blk = ids.get(a);
 		if (inUse.count(a)) c.fail("C19 %s/%s reuse-while-in-use: NewRow answered block %u which is still in use; ops: %s", suite, Cfg::name(), blk, trace.c_str());
 		inUse.insert(a);
-		Cfg::fill(r, serial);
 		size_t took = before + 1 - alloc();
 		unsigned h = nextHandle++;
 		say(fmt("new %u %u", h, blk), fmt("ok %s took=%zu", seen ? "reuse" : "fresh", took));
@@ -597,7 +606,7 @@ static void runPar(Ctx& c, Rng& rng, Suite* sp, unsigned cases, unsigned opsPerC
 			size_t rows = t->GetCount();
 			if (pick < 35 || (held.empty() && rows == 0)) {
 				crashNext("pnew");
-				Row r = t->NewRow();
+				Row r = Cfg::create(*t, serial);
 				const void* a = r.GetRaw();
 				bool seen = ids.known(a); unsigned blk = ids.get(a);
 				auto it = use.m.find(a);
@@ -611,7 +620,6 @@ static void runPar(Ctx& c, Rng& rng, Suite* sp, unsigned cases, unsigned opsPerC
 					else { ++reusedGiven; c.stats.count("par.block_reused_after_remote_destruction"); }
 				}
 				use.m[a] = Usage::Info{ Usage::held, serial };
-				Cfg::fill(r, serial);
 				unsigned h = nextHandle++;
 				say(fmt("pnew %u %u", h, blk), fmt("ok %s", seen ? "reuse" : "fresh"));
 				held[h] = Held{ std::unique_ptr<Row>(new Row(std::move(r))), serial, a };
@@ -721,7 +729,7 @@ static void runStorm(Ctx& c, Rng& rng, unsigned threads, unsigned rowsPerThread,
 	for (unsigned n = 0; n < ownerOps; ++n) {
 		unsigned pick = (unsigned)rng.below(10);
 		if (pick < 5 || (held.empty() && t->GetCount() == 0)) {
-			Row r = t->NewRow();
+			Row r = Cfg::create(*t, serial);
 			const void* a = r.GetRaw();
 			auto it = use.m.find(a);
 			if (it != use.m.end()) {
@@ -729,7 +737,7 @@ static void runStorm(Ctx& c, Rng& rng, unsigned threads, unsigned rowsPerThread,
 				else if (!g_shared.began[it->second.serial].load()) c.fail("C19 storm reuse-while-in-use: NewRow answered the block of row serial %llu whose row object is still alive on a disposer thread in %s (owner op %u)", (unsigned long long)it->second.serial, what.c_str(), n);
 				else ++reusedGiven;
 			}
-			Cfg::fill(r, serial); use.m[a] = Usage::Info{ Usage::held, serial };
+			use.m[a] = Usage::Info{ Usage::held, serial };
 			held.emplace_back(std::unique_ptr<Row>(new Row(std::move(r))), serial); ++serial;
 		} else if (pick < 8 && !held.empty()) {
 			size_t i = rng.below(held.size());
@@ -816,7 +824,7 @@ int main(int argc, char** argv)
 			// the large exhaustive configurations do not depend on the seed: run once (the thorough tier's second seed is >= 10^6)
 			IF_DYN(runInterleavings<DynCfg>(c, s, three[0], 0, schedules);)		// ~146k schedules, includes ABA
 			IF_DYN(runInterleavings<DynCfg>(c, s, P{}, 0, schedules, 2, 1);)
-			IF_STAT(runInterleavings<StatCfg>(c, s, P{}, 0, schedules, 2, 2);)		// ~228k schedules
+			IF_STAT(runInterleavings<StatCfg>(c, s, three[0], 1, schedules);)
 			IF_STAT(runInterleavings<StatCfg>(c, s, P{}, 0, schedules, 2, 1);)
 		} else if (!tsan) {
 			// more rows per thread (destroyed one after the other by the same thread)
